@@ -292,6 +292,8 @@ def run(run):
     # ---------------------------------------------------------------- R7
     _brother_list_answer(run, PV, D, dbo, g, lay)
     _block_loop_outcome(run, PV, D, dbo, g)
+    _flow_table(run, PV, D, dbo, g)
+    _header_flow(run, PV, D, sbh)
     # byte-exact relay under any chunk-request pattern: the chunk loop's decision table (rule R3 of C01) under the prefix K.
     from . import c01
     sdc_ = P.method(D, "_send_data_in_chunks")
@@ -435,6 +437,270 @@ def _block_loop_outcome(run, PV, D, dbo, g):
                 okd = any(g.dominates(e, rn) for e in t_edges) if hasattr(g, "dominates") else any(e in g.dominators(rn) for e in t_edges)
                 run.check("R8", okd, f"{resp} only when the device reported ops.{member}", key=f"_do_block_operation|{resp}|guard", where=dbo.loc(r),
                           message=f"`{norm(r)[:60]}` is not dominated by the device's latest answer being ops.{member}")
+
+
+def _flow_table(run, PV, D, dbo, g):
+    """R9: the block operation as a decision table per segment of its control flow."""
+    P, A = run.P, run.A
+    from sa.decide import subst
+    run.rule("R9", "Flow of _do_block_operation, decided per segment on the decision table of its conditions (HDR/BRO: the header exchange of a block / brother "
+             "reported success; ADV: command == CMD.ADVANCE; op X: operation byte of the latest answer == ops.X; TOO: more than 255 brothers): "
+             "(1) start -> block loop iff the initialisation answer's op is HEADER_META, otherwise (False, ERROR_UNEXPECTED); "
+             "(2) per block: not HDR -> the header exchange's own failure pair is returned; HDR, ADV and op BROTHER_LIST_META -> TOO ? (False, ERROR_INVALID_BROTHERS) "
+             ": one brother-list exchange, then (R7) the brother loop; otherwise ADV and op PARTIAL -> (True, OK_PARTIAL), op SUCCESS -> (True, OK_TOTAL), else next block; "
+             "(3) per brother: not BRO -> its failure pair is returned, else next brother; (4) after the last brother: as the `otherwise` of (2); "
+             "(5) blocks exhausted -> raises. No segment decides on anything else.")
+    okop, OPI = try_fold(P, ast.parse("self.OFF.OP", mode="eval").body, dbo, D)
+    run.require(okop, "OFF.OP not foldable")
+    heads = [n for n in g.nodes if n.kind == "for" and isinstance(n.ast, ast.For) and isinstance(n.ast.iter, ast.Call) and norm(n.ast.iter.func) == "enumerate"
+             and n.ast.iter.args and norm(n.ast.iter.args[0]) == "blocks"]
+    run.require(len(heads) == 1, "_do_block_operation: the loop over enumerate(blocks, ..) was not identified")
+    H = heads[0]
+    inner = [n for n in g.nodes if n.kind == "for" and n is not H and isinstance(n.ast, ast.For) and any(n.ast is x for x in ast.walk(H.ast))]
+    run.require(len(inner) == 1, f"_do_block_operation: expected one brother loop inside the block loop, found {len(inner)}")
+    B = inner[0]
+
+    def edge(head, note):
+        es = [n for n in g.nodes if n.kind in ("T", "F") and n.cond is head and n.note == note]
+        run.require(len(es) == 1, f"_do_block_operation: loop edge `{note}` not found")
+        return es[0]
+    state = {"W": None}
+
+    def resolve(e):
+        b = state["W"]._bind or {}
+        for _ in range(6):
+            names = {n.id for n in ast.walk(e) if isinstance(n, ast.Name)}
+            hit = {k: v for k, v in b.items() if k in names}
+            if not hit:
+                break
+            e = subst(e, hit)
+        return e
+
+    def answer_kind(x):
+        """which device answer an expression stands for"""
+        x = resolve(x)
+        if isinstance(x, ast.Call) and call_name(x) == "_send_command":
+            return "cmd"
+        if isinstance(x, ast.Subscript) and isinstance(x.slice, ast.Constant) and x.slice.value == 1:
+            v = x.value
+            if isinstance(v, ast.Call) and call_name(v) == "_send_block_header":
+                return "hdr"
+            if isinstance(v, ast.Name):
+                return "latest"
+        return None
+
+    def atom(e):
+        cp = cmp_parts(e)
+        if cp is not None:
+            l, op, r = cp
+            rt = _strip(norm(r))
+            if op in ("==", "!=") and rt.startswith("ops.") and isinstance(l, ast.Subscript) and try_fold(P, l.slice, dbo, D) == (True, OPI):
+                k = answer_kind(l.value)
+                if k is not None:
+                    return (f"op {rt[4:]}", op == "==")
+            if op in ("==", "!=") and {_strip(norm(l)), rt} == {"command", "self.CMD.ADVANCE"}:
+                return ("ADV", op == "==")
+            lt = _strip(norm(resolve(l)))
+            if re.fullmatch(r"len\(brothers\[[^\[\]]+\]\)", lt) and isinstance(r, ast.Constant) and isinstance(r.value, int):
+                if (op, r.value) in ((">", 255), (">=", 256), ("<=", 255), ("<", 256)):
+                    return ("TOO", op in (">", ">="))
+                if (op, r.value) in ((">", 0), ("!=", 0), (">=", 1), ("==", 0), ("<=", 0), ("<", 1)):
+                    return ("C", op in (">", "!=", ">="))
+        x = resolve(e)
+        if isinstance(x, ast.Subscript) and isinstance(x.slice, ast.Constant) and x.slice.value == 0 and isinstance(x.value, ast.Call) \
+                and call_name(x.value) == "_send_block_header":
+            return ("HDR", True)
+        return None
+
+    def outcome(lf):
+        if lf.kind == "stop":
+            return "block loop" if lf.node is H else ("brother loop" if lf.node is B else f"stop at line {lf.node.lineno}")
+        if lf.kind == "return":
+            v = lf.node.ast.value
+            if v is None:
+                return "return None"
+            v = lf.deep(v)
+            if isinstance(v, ast.Tuple) and len(v.elts) == 2 and isinstance(v.elts[0], ast.Constant) and isinstance(v.elts[0].value, bool):
+                return f"({v.elts[0].value}, {_strip(norm(v.elts[1]))})"
+            if isinstance(v, ast.Call) and call_name(v) == "_send_block_header":
+                return "relay"
+            return f"return {_strip(norm(v))[:50]}"
+        return lf.kind
+
+    def end_of_block(v):
+        if v.get("ADV") and v.get("op PARTIAL"):
+            return "(True, responses.OK_PARTIAL)"
+        if v.get("op SUCCESS"):
+            return "(True, responses.OK_TOTAL)"
+        return "block loop"
+
+    def want2(v):
+        if not v["HDR"]:
+            return "relay"
+        if v["ADV"] and v["op BROTHER_LIST_META"]:
+            if v["TOO"]:
+                return "(False, responses.ERROR_INVALID_BROTHERS)"
+            if v["C"] and not v["op BROTHER_META"]:
+                return "(False, responses.ERROR_UNEXPECTED)"
+            return "brother loop"
+        return end_of_block(v)
+    OPS_X = ("op BROTHER_LIST_META", "op PARTIAL", "op SUCCESS")       # values of one byte: at most one holds
+
+    def feas(v):
+        return sum(1 for a in OPS_X if v.get(a)) <= 1
+    segments = [
+        ("start", g.entry, ["op HEADER_META"], lambda v: "block loop" if v["op HEADER_META"] else "(False, responses.ERROR_UNEXPECTED)", None),
+        ("block", edge(H, "has-item"), ["HDR", "ADV", "op BROTHER_LIST_META", "TOO", "C", "op BROTHER_META", "op PARTIAL", "op SUCCESS"], want2, feas),
+        ("brother", edge(B, "has-item"), ["HDR"], lambda v: "brother loop" if v["HDR"] else "relay", None),
+        ("after brothers", edge(B, "exhausted"), ["ADV", "op PARTIAL", "op SUCCESS"], end_of_block, feas),
+        ("blocks exhausted", edge(H, "exhausted"), [], lambda v: "raise", None),
+    ]
+    n_cases = 0
+    for seg, start, atoms, want, feasible in segments:
+        W = Walker(A, dbo, D, atom, stop_at_for=True, max_leaves=512, max_steps=20000)
+        state["W"] = W
+        for lf in W.walk(start):
+            got = outcome(lf)
+            unknown = sorted(k[1:] for k in lf.pc if isinstance(k, str) and k.startswith("?"))
+            run.check("R9", not unknown, f"[{seg}] decides on the protocol's conditions only", key=f"_do_block_operation|flow|{seg}|extra|{';'.join(unknown)[:60]}",
+                      where=dbo.loc(lf.node.ast) if lf.node.ast is not None else dbo.loc(),
+                      message=f"segment `{seg}` of _do_block_operation decides on `{'`, `'.join(unknown)[:120]}`, which is not one of the protocol's conditions (or tests "
+                              "something other than the latest answer / the header exchange's result): blocks could be withheld from, or sent to, a device that did not ask")
+            if unknown:
+                continue
+            sends = [v_ for k_, st_, v_ in lf.effects if k_ in ("assign", "expr") and any(isinstance(c_, ast.Call) and call_name(c_) == "_send_command" for c_ in ast.walk(st_))]
+            for v in completions({k: b for k, b in lf.pc.items() if k in atoms}, atoms, feasible):
+                n_cases += 1
+                w = want(v)
+                desc = ", ".join(f"{a}={'T' if v[a] else 'F'}" for a in atoms if a in lf.pc) or "-"
+                run.check("R9", got == w, f"[{seg}: {desc}] -> {w}", key=f"_do_block_operation|flow|{seg}|{desc}", where=dbo.loc(lf.node.ast) if lf.node.ast is not None else dbo.loc(),
+                          message=f"_do_block_operation, segment `{seg}`, case [{desc}]: the code does `{got}`, the block protocol requires `{w}`")
+                if seg == "block" and w == "brother loop" and got == w:
+                    run.check("R9", len(sends) == 1, f"[{seg}: {desc}] exactly one brother-list exchange", key=f"_do_block_operation|flow|{seg}|{desc}|blm-sends",
+                              where=dbo.loc(lf.node.ast) if lf.node.ast is not None else dbo.loc(),
+                              message=f"_do_block_operation, case [{desc}]: {len(sends)} exchanges between the block header and its brothers (the brother-list metadata is sent once)")
+    run.floor("R9", "flow cases of _do_block_operation", n_cases, 20)
+
+
+def _header_flow(run, PV, D, sbh):
+    """R10: one header exchange (metadata + chunks) as a decision table, handlers included."""
+    P, A = run.P, run.A
+    from sa.decide import subst
+    g = A.cfg(sbh, D)
+    run.rule("R10", "Flow of _send_block_header (BIG: merge-mining payload size > 0xFFFF; OPC: the metadata answer's op == op_chunk; CHK: the chunk exchange "
+             "reported success): BIG -> ValueError -> (False, ERROR_COMPUTE_METADATA), so that only sizes that fit go to to_bytes(2); not OPC -> (False, "
+             "ERROR_UNEXPECTED); not CHK -> (False, ERROR_UNEXPECTED); otherwise the chunk exchange's own (True, answer) is returned. Every handler answers "
+             "(False, <error>): ValueError -> ERROR_COMPUTE_METADATA, a device error during the chunks -> chunk_error_mapping.get(<its code>, "
+             "ERROR_<..>) (the table R3 of C04 composes with the documented codes). Nothing else is decided.")
+    okop, OPI = try_fold(P, ast.parse("self.OFF.OP", mode="eval").body, sbh, D)
+    run.require(okop, "OFF.OP not foldable")
+    state = {"W": None}
+
+    def resolve(e):
+        b = state["W"]._bind or {}
+        for _ in range(6):
+            names = {n.id for n in ast.walk(e) if isinstance(n, ast.Name)}
+            hit = {k: v for k, v in b.items() if k in names}
+            if not hit:
+                break
+            e = subst(e, hit)
+        return e
+
+    def atom(e):
+        cp = cmp_parts(e)
+        if cp is not None:
+            l, op, r = cp
+            lt, rt = _strip(norm(resolve(l))), _strip(norm(r))
+            if op in ("==", "!=") and rt == "op_chunk" and isinstance(l, ast.Subscript) and try_fold(P, l.slice, sbh, D) == (True, OPI):
+                x = resolve(l.value)
+                if isinstance(x, ast.Call) and call_name(x) == "_send_command":
+                    return ("OPC", op == "==")
+            if lt == "rlp_mm_payload_size(block)":
+                okr, rv = try_fold(P, r, sbh, D)
+                rv = unwrap(rv) if okr else None
+                if isinstance(rv, int) and (op, rv) in ((">", 0xFFFF), (">=", 0x10000), ("<=", 0xFFFF), ("<", 0x10000)):
+                    return ("BIG", op in (">", ">="))
+            if op in ("==", "!=") and {_strip(norm(l)), rt} == {"command", "self.CMD.ADVANCE"}:
+                return ("ADV", op == "==")
+            if op in ("==", "!=") and _strip(norm(l)) == "header_name" and isinstance(r, ast.Constant):
+                return (f"NAME {r.value}", op == "==")
+            if op in ("in", "not in") and lt.endswith(".error_code") and isinstance(r, (ast.List, ast.Tuple, ast.Set)) \
+                    and all(_strip(norm(x)).startswith("errors.") for x in r.elts):
+                return ("ERR " + ",".join(sorted(_strip(norm(x))[7:] for x in r.elts)), op == "in")
+            if op in ("==", "!=") and lt.endswith(".error_code") and rt.startswith("errors."):
+                return ("ERR " + rt[7:], op == "==")
+            if op in ("in", "not in") and lt.endswith(".error_code") and rt == "chunk_error_mapping":
+                return ("ERR mapped", op == "in")
+        x = resolve(e)
+        if isinstance(x, ast.Subscript) and isinstance(x.slice, ast.Constant) and x.slice.value == 0 and isinstance(x.value, ast.Call) \
+                and call_name(x.value) == "_send_data_in_chunks":
+            return ("CHK", True)
+        return None
+    W = Walker(A, sbh, D, atom, follow_exc=True, max_leaves=4000, max_steps=200000)
+    state["W"] = W
+    n_cases = 0
+    for lf in W.walk(g.entry):
+        unknown = sorted(k[1:] for k in lf.pc if isinstance(k, str) and k.startswith("?"))
+        run.check("R10", not unknown, "decides on the protocol's conditions only", key=f"_send_block_header|flow|extra|{';'.join(unknown)[:60]}",
+                  where=sbh.loc(lf.node.ast) if lf.node.ast is not None else sbh.loc(),
+                  message=f"_send_block_header decides on `{'`, `'.join(unknown)[:120]}`, which is not one of the conditions of the header exchange")
+        if unknown:
+            continue
+        hs = [n.ast for n in lf.path if n.kind == "handler" and isinstance(n.ast, ast.ExceptHandler)]
+        raised = [st_ for k_, st_, v_ in lf.effects if k_ == "raised"]
+        if lf.kind == "return" and lf.node.ast.value is not None:
+            v = lf.deep(lf.node.ast.value)
+            if isinstance(v, ast.Tuple) and len(v.elts) == 2 and isinstance(v.elts[0], ast.Constant) and isinstance(v.elts[0].value, bool):
+                got = f"({v.elts[0].value}, {_strip(norm(v.elts[1]))})"
+            elif isinstance(v, ast.Call) and call_name(v) == "_send_data_in_chunks":
+                got = "relay"
+            else:
+                got = f"return {_strip(norm(v))[:60]}"
+        else:
+            got = lf.kind
+        n_cases += 1
+        where = sbh.loc(lf.node.ast) if lf.node.ast is not None else sbh.loc()
+        if hs:
+            h = hs[-1]
+            ht = norm(h.type) if h.type is not None else "any exception"
+            desc = f"handler {ht}" + "".join(f", {k}={'T' if b else 'F'}" for k, b in sorted(lf.pc.items()) if k.startswith("ERR "))
+            if ht == "ValueError":
+                okh = got == "(False, responses.ERROR_COMPUTE_METADATA)"
+                w = "(False, responses.ERROR_COMPUTE_METADATA)"
+            else:
+                m_ = re.fullmatch(r"\(False, (responses\.ERROR_\w+|chunk_error_mapping\.get\((\w+)\.error_code, responses\.ERROR_\w+\))\)", got)
+                okh = m_ is not None and (m_.group(2) is None or m_.group(2) == h.name)
+                # `if code in mapping: (False, mapping[code]) else: (False, ERROR_..)` is the same table read
+                mapped = lf.pc.get("ERR mapped")
+                m2_ = re.fullmatch(r"\(False, chunk_error_mapping\[(\w+)\.error_code\]\)", got)
+                via_test = (mapped is True and m2_ is not None and m2_.group(1) == h.name) or (mapped is False and m_ is not None and m_.group(2) is None)
+                # the handler around the chunk exchange answers through the per-command table
+                in_chunk_try = any(isinstance(c_, ast.Call) and call_name(c_) == "_send_data_in_chunks" for st_ in raised for c_ in ast.walk(st_)) or \
+                    any(isinstance(c_, ast.Call) and call_name(c_) == "_send_data_in_chunks" for t_ in ast.walk(sbh.node) if isinstance(t_, ast.Try) and h in t_.handlers
+                        for b_ in t_.body for c_ in ast.walk(b_))
+                if in_chunk_try:
+                    okh = (okh and m_.group(2) is not None) or via_test
+                    w = "(False, chunk_error_mapping.get(<the status>, responses.ERROR_..))"
+                else:
+                    w = "(False, responses.ERROR_..)"
+            run.check("R10", okh, f"[{desc}] -> {w}", key=f"_send_block_header|flow|{desc}", where=where,
+                      message=f"_send_block_header, {desc}: the code does `{got}`, expected `{w}`: a failed header exchange reported as success makes the block loop go on "
+                              "with an answer that is no answer; a device status not passed through the command's table loses its documented code")
+            continue
+        v = lf.pc
+        desc = ", ".join(f"{a}={'T' if v[a] else 'F'}" for a in ("BIG", "OPC", "CHK") if a in v) or "-"
+        if v.get("BIG"):
+            w = "raise"          # ValueError, answered by its handler (above)
+        elif v.get("OPC") is False:
+            w = "(False, responses.ERROR_UNEXPECTED)"
+        elif v.get("CHK") is False:
+            w = "(False, responses.ERROR_UNEXPECTED)"
+        else:
+            w = "relay"
+        run.check("R10", got == w and ("BIG" in v), f"[{desc}] -> {w}", key=f"_send_block_header|flow|{desc}", where=where,
+                  message=f"_send_block_header, case [{desc}]: the code does `{got}`, the header exchange requires `{w}`"
+                          + ("" if "BIG" in v else " (and the payload size is not bounded by 0xFFFF before to_bytes(2))"))
+    run.floor("R10", "flow cases of _send_block_header", n_cases, 8)
 
 
 def _brother_list_answer(run, PV, D, dbo, g, lay):
